@@ -15,6 +15,8 @@ Respellings the normal form is invariant under (each is behaviour-preserving on 
   N5  order of keyword arguments of a call
   N6  `t = e; return t` <-> `return e` when t is not used elsewhere
   N7  `t = e; S[t]` <-> `S[e]` when t is bound once, read once, in the next statement, at the position that is evaluated first there
+  N8  `if c: ...; return x  else: B` <-> `if c: ...; return x` followed by B (also raise / continue / break, and the mirrored orientation)
+  N9  `X.T.conj()` <-> `X.conj().T`
 Not covered (such a change is analysed as written): anything that reorders effects, changes an expression algebraically, restructures loops, or
 moves code between functions."""
 import ast
@@ -64,6 +66,18 @@ def _pure_args(call):
 def _is_logging(st):
     return isinstance(st, ast.Expr) and isinstance(st.value, ast.Call) and isinstance(st.value.func, ast.Attribute) and isinstance(st.value.func.value, ast.Name) \
         and st.value.func.value.id in ("logger", "logging") and st.value.func.attr in ("debug", "info", "warning", "warn", "error") and _pure_args(st.value)
+
+
+def _falls_through(stmts):
+    """False when the last statement of the block always leaves it (return / raise / continue / break, or an if whose branches all do)"""
+    if not stmts:
+        return True
+    last = stmts[-1]
+    if isinstance(last, (ast.Return, ast.Raise, ast.Continue, ast.Break)):
+        return False
+    if isinstance(last, ast.If) and last.orelse:
+        return _falls_through(last.body) or _falls_through(last.orelse)
+    return True
 
 
 def _first_evaluated(e):
@@ -174,9 +188,12 @@ class _Canon(ast.NodeTransformer):
             n.ops = [_FLIP[type(n.ops[0])]()]
         return n
 
-    # ---- N5
+    # ---- N5, N9
     def visit_Call(self, n):
         self.generic_visit(n)
+        if isinstance(n.func, ast.Attribute) and n.func.attr == "conj" and not n.args and not n.keywords and isinstance(n.func.value, ast.Attribute) and n.func.value.attr == "T":
+            inner = n.func.value.value
+            return ast.Attribute(value=ast.Call(func=ast.Attribute(value=inner, attr="conj", ctx=ast.Load()), args=[], keywords=[]), attr="T", ctx=ast.Load())
         if len(n.keywords) > 1 and all(k.arg is not None for k in n.keywords):
             n.keywords = sorted(n.keywords, key=lambda k: k.arg)
         return n
@@ -198,6 +215,13 @@ class _Canon(ast.NodeTransformer):
             if isinstance(st, ast.Expr) and isinstance(st.value, ast.Constant) and isinstance(st.value.value, str):
                 continue            # doc string / bare string statement
             out.append(st)
+            # N8: the else branch of an `if` whose body cannot fall through is written after the `if` (and the mirrored form is turned round first)
+            if isinstance(st, ast.If) and st.orelse:
+                if not _falls_through(st.orelse) and _falls_through(st.body):
+                    st.test, st.body, st.orelse = _neg(st.test), st.orelse, st.body
+                if not _falls_through(st.body):
+                    out.extend(st.orelse)
+                    st.orelse = []
         # N6 / N7: single-use temporaries consumed by the next statement
         changed = True
         while changed:
